@@ -8,4 +8,4 @@ Require Import Fsic.Base.PyBase Fsic.Parser.PyStr Fsic.Parser.Lex Fsic.Parser.Sy
                Fsic.Parser.ParseModel Fsic.Graph.GLex Fsic.Graph.GNorm Fsic.Graph.Graph Fsic.Layout.Denorm.
 Extraction Language OCaml.
 Extraction "Extract/Graph/graph_model.ml"
-  symbols_to_graph_M nx_edges neq_wf neq_text varlike_id finditer_group0 string_of_Z type_name parse_model_nocheck parse_equation_M dq_ok denorm_text neq_code.
+  symbols_to_graph_M nx_edges neq_wf neq_text varlike_id finditer_group0 string_of_Z type_name parse_model_nocheck parse_equation_M dq_ok_canon denorm_canon neq_code.
